@@ -271,7 +271,8 @@ class _Gen:
         sub = 'nested' if (oneline or self.scope_depth > 0) else False
         k = ch.weighted([(170, 'simple'), (w, 'if'), (ws, 'shortif'),
                          (w, 'fornum'), (w // 2, 'forin'), (w // 2, 'while'), (w // 3, 'repeat'), (w // 3, 'do'),
-                         (wl, 'function'), (wl // 2, 'localfunction'), (6, 'label'), (6, 'goto')])
+                         (wl, 'function'), (wl // 2, 'localfunction'), (6, 'label'), (6, 'goto'),
+                         (5 if (in_loop and 'break_mid_block' not in self.cfg.avoid) else 0, 'break')])
         self.budget -= 2
         if k == 'simple':
             return self.simple_stmt(d, vararg, no_paren_head=bool(oneline), allow_print=scoped_ok)
@@ -323,6 +324,9 @@ class _Gen:
                 self.block(d - 1, True, vararg, oneline=oneline)
             if body[-1][0] in ('return', 'break'):
                 body.pop()
+            if ch.chance(70) and 'break_mid_block' not in self.cfg.avoid:
+                body.append(('break',))          # `break ::continue::` - leave the loop unless the goto skipped this
+                self.tags.add('break_mid_block')
             body.append(('label', b'continue'))
             if k == 'while':
                 return ('while', self.exp(d - 1, vararg), body)
@@ -352,6 +356,10 @@ class _Gen:
         if k == 'label':
             self.tags.add('label')
             return ('label', ch.pick(LABELS))
+        if k == 'break':
+            # Lua 5.2: break is an ordinary statement; more statements (a label, typically) may follow it
+            self.tags.add('break_mid_block')
+            return ('break',)
         self.tags.add('goto')
         return ('goto', ch.pick(LABELS))
 
